@@ -289,7 +289,7 @@ def directed(rng):
         decls = [decl('n', 'int', 'in'), decl('m', 'int', 'in'), decl('flag', 'log', 'in'), decl('ia', 'int', 'inout', [(0, 4)]),
                  decl('t1', 'int', 'inout'), decl('t2', 'int', 'inout'), decl('k', 'int', 'out')]
         decls += [decl(v, 'int') for v in ('i', 'j', 'w', 's1', 's2')] + [decl('ic', 'int', 'local', [(0, 4)])]
-        init = [assign(V('k'), N(0)), assign(V('ic'), N(2))]
+        init = [assign(V('k'), N(0)), assign(V('ic'), call('mod', op('sum', V('ia'), N(7)), N(6)))]
         prog = {'units': [unit('kernel', ['n', 'm', 'flag', 'ia', 't1', 't2', 'k'], decls, init + body)]}
         used = {s['name'] for s in flat(body) if s['s'] == 'call'}
         for _ in range(2):
@@ -311,7 +311,7 @@ def directed(rng):
                        assign(V('k'), V('t1'))],
         'select-case': [select_(call('mod', call('abs', V('n')), N(4)), [(0, 0, [assign(V('t1'), N(5))]), (1, 2, [assign(V('t2'), V('t1'))])], [assign(V('k'), N(1))]),
                         assign(V('k'), add(V('k'), add(V('t1'), V('t2'))))],
-        'cycle-in-loop': [do_('i', N(0), N(3), [if_(cmp_('>', V('i'), V('n')), [{'s': 'cycle'}], inline=True), assign(V('t1'), V('i'))]), assign(V('k'), V('t1'))],
+        'cycle-in-loop': [do_('i', N(0), N(3), [if_(cmp_('>=', V('i'), V('n')), [{'s': 'cycle'}], inline=True), assign(V('t1'), V('i'))]), assign(V('k'), V('t1'))],
         'exit-in-loop': [do_('i', N(0), N(3), [if_(cmp_('>', V('i'), V('n')), [{'s': 'exit'}], inline=True), assign(V('t1'), V('i'))]), assign(V('k'), V('t1'))],
         'early-return': [if_(V('flag'), [{'s': 'return'}], inline=True), assign(V('t1'), N(4)), assign(V('k'), V('t1'))],
         'call-intents': [callst('h5', V('t1'), add(V('n'), N(1))), callst('h2', V('t2'), add(V('t1'), N(1))), callst('h6', V('t1'), V('n')), assign(V('k'), add(V('t1'), V('t2')))],
@@ -323,10 +323,10 @@ def directed(rng):
         'call-array-inout': [callst('h1', V('ia'), add(V('n'), N(1)), V('t2')), assign(V('k'), add(V('t2'), el('ia', N(0))))],
         'function-call': [assign(V('k'), add(call('f1', V('t1'), V('n')), V('t2')))],
         'print': [{'s': 'print', 'items': [V('t1'), add(V('n'), N(1))]}, {'s': 'print', 'items': [V('ia')]}],
-        'where': [where_([5], [cmp_('>', V('ia'), N(1))], [[assign(V('ia'), N(0))]]), assign(V('k'), el('ia', N(1)))],
-        'where-elsewhere': [where_([5], [cmp_('>', V('ia'), N(1))], [[assign(V('ic'), V('ia'))]], [assign(V('ic'), add(V('ic'), N(1)))]), assign(V('k'), el('ic', N(1)))],
-        'where-masked-elsewhere': [where_([5], [cmp_('>', V('ia'), N(2)), cmp_('<', V('ia'), N(0))], [[assign(V('ic'), N(7))], [assign(V('ia'), V('ic'))]], [assign(V('ia'), add(V('ic'), V('ia')))]),
-                                   assign(V('k'), el('ia', N(0)))],
+        'where': [if_(cmp_('>', V('n'), N(0)), [where_([5], [cmp_('>', V('ic'), V('n'))], [[assign(V('ia'), N(0))]]), assign(V('k'), el('ia', N(1)))])],
+        'where-elsewhere': [if_(cmp_('>', V('n'), N(0)), [where_([5], [cmp_('>', V('ic'), V('n'))], [[assign(V('ia'), V('ic'))]], [assign(V('ia'), add(V('ia'), N(1)))]), assign(V('k'), el('ia', N(1)))])],
+        'where-masked-elsewhere': [if_(cmp_('>', V('n'), N(0)), [where_([5], [cmp_('>', V('ic'), N(3)), cmp_('<', V('ic'), V('n'))], [[assign(V('ia'), N(7))], [assign(V('ic'), V('ia'))]], [assign(V('ic'), add(V('ic'), V('ia')))]),
+                                   assign(V('k'), add(el('ia', N(0)), el('ic', N(1))))])],
         'array-element-def-then-other-element': [assign(el('ic', N(1)), V('n')), assign(V('k'), el('ic', N(2)))],
         'array-recurrence': [do_('i', N(1), N(4), [assign(el('ia', V('i')), add(el('ia', op('sum', V('i'), N(-1))), N(1)))])],
         'array-shifted-read-after-write': [do_('i', N(1), N(4), [assign(el('ic', V('i')), V('i')), assign(V('k'), add(V('k'), el('ic', op('sum', V('i'), N(-1)))))])],
@@ -378,12 +378,11 @@ def loki_sets(text, prog, nids):
     def names(symset, amap):
         out = set()
         for s in symset:
-            if isinstance(s, (sym.Scalar, sym.Array, sym.DeferredTypeSymbol)):
-                vs = [s]
-            elif isinstance(s, sym.ProcedureSymbol):
+            if isinstance(s, sym.ProcedureSymbol):
                 continue
-            else:                                # an expression (associate selector put back by visit_Associate): generous
-                vs = [v for v in FindVariables().visit(s)]
+            # generous: a member contributes its own name and every variable inside it (visit_Associate puts
+            # whole selectors - subscripted arrays, expressions - back into the Associate node's sets)
+            vs = list(FindVariables().visit(s))
             for v in vs:
                 n = v.name.lower()
                 if n in amap:
@@ -648,7 +647,7 @@ def classify(ix, sets, miss):
         if var not in leafsets['u']:
             if lk == 'call':
                 return f'uses:call-arg-intent-{ix.call_intent(leaf, var)}:{role}'
-            return f'uses:{lk}-read-not-recorded:{role}'
+            return f"uses:{'associate-selector' if lk == 'assoc' else lk}-read-not-recorded:{role}"
         if aux == 'p':
             kd = earlier_definer(ix, sets, node, leaf, var)
             return f"uses:read-after-partial-array-def:by-{ix.nokill(kd, var, sets) if kd else 'same-statement'}"
@@ -661,19 +660,16 @@ def classify(ix, sets, miss):
         if aux == 'a':
             return f'live:dummy-intent-{intent}:{role}'
         # value written earlier in the frame: which recorded definition should have made it live?
-        inloop = [i for i in (ix.path(u['bid'], node) or []) if ix.kind(i) in ('do', 'while')]
-        before = [s for s in flat(u['body']) if s['id'] < node and var in sets[s['id'] - 1]['d']]
-        if not before:
-            later = [s for s in flat(u['body']) if s['id'] >= node and var in sets[s['id'] - 1]['d']]
-            if inloop and later:
-                return f'live:defined-in-earlier-iteration:{role}'
-            writers = sorted({ix.nokill(s['id'], var, sets) for s in flat(u['body']) if s['s'] == 'call' and any(a.get('name') == var for a in s['args'])})
-            if writers:
-                return f"live:defined-by-{'/'.join(writers)}:{role}"
+        path = ix.path(u['bid'], node) or []
+        if earlier_definer(ix, sets, u['bid'], node, var) is not None:
             return f'live:unexplained:{nk}:{role}'
-        if inloop:
-            return f'live:defined-in-other-branch-or-iteration:{role}'
-        return f'live:defined-in-sibling-branch:{nk}:{role}'
+        loops = [i for i in path if ix.kind(i) in ('do', 'while')]
+        if loops and any(var in sets[s['id'] - 1]['d'] for s in flat(ix.info[loops[0]]['s']['body'])):
+            return f'live:defined-in-earlier-iteration:{role}'
+        writers = sorted({ix.nokill(s['id'], var, sets) for s in flat(u['body']) if s['s'] == 'call' and any(a.get('name') == var for a in s['args'])})
+        if writers:
+            return f"live:defined-by-{'/'.join(writers)}:{role}"
+        return f'live:unexplained:{nk}:{role}'
     if cl == 'C':
         if var not in leafsets['u']:
             return f'carried:{lk}-read-not-recorded:{role}' if lk != 'call' else f'carried:call-arg-intent-{ix.call_intent(leaf, var)}:{role}'
@@ -691,6 +687,8 @@ def classify(ix, sets, miss):
         if inf['kind'] == 'elseif':
             return f'raw:elseif-arm:{role}'
         sibs = inf['sibs']
+        if any(s['s'] == 'assoc' for sb in sibs for s in flat([sb])) or any(ix.kind(i) == 'assoc' for i in (ix.path(u['bid'], node) or [])):
+            return f'raw:access-through-associate-name:{role}'
         seen_w = any(var in sets[s['id'] - 1]['d'] for sb in sibs[:inf['pos']] for s in flat([sb]))
         if not seen_w:
             callers = sorted({ix.nokill(s['id'], var, sets) for sb in sibs[:inf['pos']] for s in flat([sb]) if s['s'] == 'call' and any(a.get('name') == var for a in s['args'])})
